@@ -83,9 +83,41 @@ func (s *trieSys) Do(o tt.Op) tt.Res {
 		s.t.Put(strOf(o.A[1:]), o.A[0])
 		s.put = append(s.put, strOf(o.A[1:]))
 		return tt.Res{Ok: true}
+	// the observers as calls of their own, between the puts: a query must not change what later calls see
+	case "sw":
+		q, err := s.t.StartsWith(strOf(o.A))
+		if err != nil {
+			return tt.Res{Ok: false, S: []int{}}
+		}
+		ks := drainQ(q)
+		return tt.Res{Ok: true, V: len(ks), S: flatKeys(ks)}
+	case "keys":
+		q, err := s.t.Keys()
+		if err != nil {
+			return tt.Res{Ok: false, S: []int{}}
+		}
+		ks := drainQ(q)
+		return tt.Res{Ok: true, V: len(ks), S: flatKeys(ks)}
+	case "get":
+		v, ok := s.t.Get(strOf(o.A))
+		return tt.Res{Ok: ok, V: v, S: []int{b2i(s.t.Contains(strOf(o.A)))}}
+	case "lp":
+		r, err := s.t.LongestPrefix(strOf(o.A))
+		return tt.Res{Ok: err == nil, S: bytesOf(r)}
 	}
 	panic("trie driver: unknown op " + o.N)
 }
+
+// flatKeys: k1 -1 k2 -1 ... (byte codes are never negative)
+func flatKeys(ks [][]int) []int {
+	out := []int{}
+	for _, k := range ks {
+		out = append(append(out, k...), -1)
+	}
+	return out
+}
+
+func trieIsObs(o tt.Op) bool { return o.N != "put" && o.N != "new" }
 
 func drainQ(q trie.Queuer[string]) [][]int {
 	out := [][]int{}
@@ -182,6 +214,11 @@ func trieExplorer(depth int, alpha string, keyLen int) *tt.Explorer {
 			for _, k := range keys {
 				r = append(r, op("put", append([]int{len(path)}, bytesOf(k)...)...))
 			}
+			// observers between the puts (never two in a row, never last: the projection follows anyway)
+			if len(path) < depth && !trieIsObs(path[len(path)-1]) {
+				r = append(r, op("sw", bytesOf(alpha[:1])...), op("sw", bytesOf(alpha[:1]+alpha[1:2])...), op("keys"),
+					op("get", bytesOf(alpha[:1])...), op("lp", bytesOf(alpha[:1]+alpha[1:2]+alpha[1:2])...))
+			}
 			return r
 		},
 		SplitDepth: 2,
@@ -208,6 +245,9 @@ func trieLinear(cfg Config, file string, runs, steps int) (int, error) {
 				return k + string(alpha[rng.Intn(len(alpha))])
 			}
 			n := 1 + rng.Intn(4)
+			if rng.Intn(25) == 0 { // long keys, around the sizes an implementation may special-case
+				n = []int{31, 32, 33, 63, 64, 65, 100, 255, 256, 300}[rng.Intn(10)]
+			}
 			b := make([]byte, n)
 			for i := range b {
 				b[i] = alpha[rng.Intn(len(alpha))]
@@ -224,6 +264,24 @@ func trieLinear(cfg Config, file string, runs, steps int) (int, error) {
 			}
 			if st > steps {
 				return tt.Op{}, false
+			}
+			if len(put) > 0 && rng.Intn(6) == 0 { // an observer call between the puts
+				k := put[rng.Intn(len(put))]
+				switch rng.Intn(5) {
+				case 0:
+					return op("sw", bytesOf(k[:1+rng.Intn(len(k))])...), true
+				case 1:
+					return op("sw", bytesOf(randKey())...), true // most likely nothing below it (yet)
+				case 2:
+					return op("get", bytesOf(k)...), true
+				case 3:
+					return op("lp", bytesOf(k+"\x00")...), true
+				default:
+					if len(put) < 60 {
+						return op("keys"), true
+					}
+					return op("get", bytesOf(randKey())...), true
+				}
 			}
 			k := randKey()
 			put = append(put, k)
@@ -277,6 +335,11 @@ func init() {
 			s.Leaves += runs
 			s.Extra["linear_runs"] = runs
 			s.Extra["linear_nodes"] = n
+			if err := sparsePass(cfg, s, func(f string) (int, error) {
+				return trieLinear(cfg, f, runs, steps)
+			}); err != nil {
+				return nil, err
+			}
 			return s, nil
 		},
 		newSys: func(variant string) (func() tt.Sys, any) {
@@ -286,6 +349,9 @@ func init() {
 			alpha, kl := "ab", 3
 			if variant == "abc" {
 				alpha, kl = "abc", 2
+			}
+			if variant == "rnd" { // the random walks: one instance, observed after every call
+				alpha, kl = "abc", 3
 			}
 			get := stringsUpTo(alpha, kl)
 			sw := stringsUpTo(alpha, 2)
